@@ -917,7 +917,14 @@ func (g *Gen) appendBuiltin(c *ssa.CallCommon, val ssa.Value) {
 	content := g.freshSig("appcontent", "() (Array Int "+es+")")
 	off := "(sl_off " + r + ")"
 	g.guard("(forall ((j Int)) (! (=> (and (<= " + off + " j) (< j (+ " + off + " (sl_len " + s + ")))) (= (select " + content + " j) (select (select " + ah + " (sl_arr " + s + ")) (+ (sl_off " + s + ") (- j " + off + "))))) :pattern ((select " + content + " j))))")
-	g.guard("(forall ((j Int)) (! (=> (and (<= (+ " + off + " (sl_len " + s + ")) j) (< j (+ " + off + " (sl_len " + s + ") " + elen + "))) (= (select " + content + " j) " + eat("(- j (+ "+off+" (sl_len "+s+")))") + ")) :pattern ((select " + content + " j))))")
+	if vals, ok := varargValues(e); ok && !isStringT(e.Type()) && len(vals) <= 8 {
+		// append(s, x1, ..., xn) with the elements known: no quantifier needed for the new part
+		for k, xv := range vals {
+			g.guard(eq(fmt.Sprintf("(select %s (+ %s (sl_len %s) %d))", content, off, s, k), g.v(xv)))
+		}
+	} else {
+		g.guard("(forall ((j Int)) (! (=> (and (<= (+ " + off + " (sl_len " + s + ")) j) (< j (+ " + off + " (sl_len " + s + ") " + elen + "))) (= (select " + content + " j) " + eat("(- j (+ "+off+" (sl_len "+s+")))") + ")) :pattern ((select " + content + " j))))")
+	}
 	g.guard(implies(inplace, "(forall ((j Int)) (! (=> (or (< j (+ (sl_off "+s+") (sl_len "+s+"))) (>= j (+ (sl_off "+s+") (sl_len "+r+")))) (= (select "+content+" j) (select (select "+ah+" (sl_arr "+s+")) j))) :pattern ((select "+content+" j))))"))
 	g.assignHeap(ahName, "(store "+ah+" "+arr+" "+content+")")
 	g.assignHeap("alloc", "(ite (> (atime "+arr+") "+al+") (atime "+arr+") "+al+")")
